@@ -20,7 +20,8 @@ CHECKS = {
              'and the real algorithm must reproduce it bit-exactly (dyadic) or to 1e-5 under several listing orders and '
              'all three backends; with a key-using (integer-noise) loss the key of every local step is recorded on the debug '
              'backend (descendant of the client\'s own key, pairwise distinct) and TLC\'s exact parameters for those draws '
-             'must be reached by all three backends.',
+             'must be reached by all three backends; the streams must have the documented shape; a fixed instance has a round '
+             'without examples after server momentum has built up.',
         note='Exact island: quadratic per-example loss, integer data, dyadic rates; Adam/Adagrad/Yogi/RMSProp only '
              'relationally; zero-example clients with num_epochs=None excluded (no batch stream exists).',
         design='5/C01'),
@@ -46,7 +47,8 @@ CHECKS = {
         text='TLC proves, for all (N, batch size, buckets, mode, drop) in the bounds, that the algorithmic model equals '
              'the declarative partition/mask/bucket definitions; each of those cases is executed on the real code '
              '(several dtypes, trailing shapes, preprocessor chains incl. in-place mutating ones) and compared '
-             'exactly, and larger random real runs are accepted by the specification with all invariants checked.',
+             'exactly, and larger random real runs are accepted by the specification with all invariants checked; the '
+             'bucket rule alone is exhausted for batch sizes up to 33 (48) and 7 buckets.',
         note='Feature values are compared through the id-decoding projection of the driver; TLC, JVM.',
         design='5/C03'),
     'C04': dict(
@@ -69,7 +71,8 @@ CHECKS = {
              'bounded (thorough) layouts are executed for every discrete metric class through four entry points with '
              'valid or NaN garbage in padded rows and compared with the TLC rational; all merge groupings of real '
              'statistics (with and without zero) must agree with evaluate_model; all configurations of a metric class '
-             'are evaluated on one batch through the jitted path in one process, each against its own statistics.',
+             'are evaluated on one batch through the jitted path in one process, each against its own statistics; '
+             'ModelEvaluator runs on 2 and 3 forced devices over clients with different batch counts.',
         note='Cross-entropy metrics only relationally (tolerance classes); banks of <= 4 examples, <= 3 batches of <= 3 rows.',
         design='5/C05'),
     'C06': dict(
@@ -82,7 +85,7 @@ CHECKS = {
              'full-batch gradient and per-domain sums equal their batch-free definitions with the regulariser once '
              '(three deviations reported); the layouts are executed on seven real entry points and compared with the '
              'TLC rationals; agnostic FedAvg domain weights (with and without regulariser), HypCluster assignment and '
-             'Mime/MimeLite rounds must not depend on padded batch size / buckets, also for cohorts in which a domain has no example.',
+             'Mime/MimeLite rounds must not depend on padded batch size / buckets, also for cohorts in which a domain has no example or a client has none; one-pass batch inputs.',
         note='Exact island: scalar parameter, quadratic loss, L2 regulariser with dyadic weight.',
         design='5/C06'),
     'C07': dict(
@@ -94,7 +97,7 @@ CHECKS = {
              'identity of clipping on Pythagorean vectors; every emitted case is executed on the real functions with '
              'NumPy and JAX leaves and list/generator/map inputs, comparing the value with the TLC rational and '
              'inspecting every caller array (deleted? changed? aliased?); random trees include clients with different leaf '
-             'dtypes in every order.',
+             'dtypes in every order; weights of every numeric type; complex leaves in clipping.',
         note='float32 rounding tolerated when the denominator is not a power of two; aliasing observable for JAX '
              'arrays only.',
         design='5/C07'),
@@ -122,7 +125,8 @@ CHECKS = {
              'accepted by the specification with all invariants evaluated after every file-system effect; conversely every '
              'crash schedule TLC generates for small configurations (named control states, up to 2 crashes) is driven '
              'into the real code and the directory after each crash and the final result are compared; half of the '
-             'configurations use full participation, where only the ORDER of the cohort identifies the round.',
+             'configurations use full participation, where only the ORDER of the cohort identifies the round; the harness state carries weakly typed and '
+             'low-precision leaves that must come back exactly as in the uninterrupted run.',
         note='In-process crash simulation (BaseException at effect boundaries; written data assumed on disk); '
              'TensorBoard summaries stubbed; harness-supplied deterministic algorithm/eval fns; TLC, JVM.',
         design='5/C09'),
@@ -136,7 +140,8 @@ CHECKS = {
              '(same state value and cohort give the same new state and diagnostics, also from a pickled or '
              'checkpointed copy, and on a second algorithm object that continues from the restored state) and Immutable (no '
              'existing state changes fingerprint or loses a buffer); FedAvg also runs on haiku-shaped nested parameters with '
-             'a freezing server optimizer.',
+             'a freezing server optimizer; the round-1 state is also restored and continued in another interpreter with its '
+             'own hash seed.',
         note='Bit-identical comparison on the CPU backend; fingerprints include nested container key sets and deleted '
              'buffers; rank >= 1 leaves for the rotation-based aggregators.',
         design='5/C10'),
